@@ -753,6 +753,30 @@ Proof.
   rewrite existsb_mid; [reflexivity | now rewrite H].
 Qed.
 
+(* an unknown variable in either slot of a pair at any position of order2, whatever its partner
+   (another variable or "magnitude") *)
+Theorem reject_unknown_order2_variable vars o1 pre v w post given :
+  smem v vars = false -> not_magnitude v = true ->
+  seq_build_ok vars o1 (pre ++ (v, w) :: post) given = Reject ValueError /\
+  seq_build_ok vars o1 (pre ++ (w, v) :: post) given = Reject ValueError.
+Proof.
+  intros H Hm. unfold seq_build_ok.
+  assert (U : unknown_var vars v = true) by (unfold unknown_var; now rewrite Hm, H).
+  split; destruct (existsb _ (filter not_magnitude o1)); try reflexivity; cbn [guard andv];
+    (rewrite existsb_mid; [reflexivity|]); cbn [fst snd]; rewrite U; [reflexivity | apply orb_true_r].
+Qed.
+(* "magnitude" and the sequence's own variables are accepted in any pairing *)
+Theorem accept_known_order2_variables vars o2 :
+  (forall p, In p o2 -> (fst p = "magnitude"%string \/ In (fst p) vars) /\ (snd p = "magnitude"%string \/ In (snd p) vars)) ->
+  seq_build_ok vars [] o2 vars = Accept.
+Proof.
+  intros H. unfold seq_build_ok. cbn [filter existsb guard andv].
+  assert (K : forall v, v = "magnitude"%string \/ In v vars -> unknown_var vars v = false).
+  { intros v [-> | Hin]; [reflexivity|]. unfold unknown_var. rewrite (smem_In v vars Hin). apply andb_false_r. }
+  rewrite existsb_none; [apply accept_all_variables_given|].
+  intros p Hp. destruct (H p Hp) as [H1 H2]. now rewrite (K _ H1), (K _ H2).
+Qed.
+
 (* ------------------------------------------------------------------ 14. RF pulses *)
 Definition given (rf alpha : option Q) : Prop := rf <> None \/ alpha <> None.
 Lemma given_ok rf alpha : given rf alpha -> is_none rf && is_none alpha = false.
